@@ -4930,6 +4930,38 @@ ASTNode *parse_program(Token *tokens, int token_count) {
 }
 
 /* Free AST */
+ASTNode *if_branch_value(ASTNode *branch) {
+    if (branch && branch->type == AST_BLOCK) {
+        branch = branch->as.block.count == 1 ? branch->as.block.statements[0] : NULL;
+    }
+    if (!branch) return NULL;
+    switch (branch->type) {
+        case AST_IF:
+            /* a chained if yields a value when its own branches do */
+            return (if_branch_value(branch->as.if_stmt.then_branch) &&
+                    if_branch_value(branch->as.if_stmt.else_branch)) ? branch : NULL;
+        case AST_NUMBER:
+        case AST_FLOAT:
+        case AST_BOOL:
+        case AST_STRING:
+        case AST_IDENTIFIER:
+        case AST_PREFIX_OP:
+        case AST_CALL:
+        case AST_MODULE_QUALIFIED_CALL:
+        case AST_COND:
+        case AST_ARRAY_LITERAL:
+        case AST_STRUCT_LITERAL:
+        case AST_FIELD_ACCESS:
+        case AST_TUPLE_LITERAL:
+        case AST_TUPLE_INDEX:
+        case AST_UNION_CONSTRUCT:
+        case AST_MATCH:
+            return branch;
+        default:
+            return NULL;
+    }
+}
+
 void free_ast(ASTNode *node) {
     if (!node) return;
 
